@@ -159,7 +159,9 @@ class Ctx:
                 with open(os.path.join(d, fn), "w") as f:
                     f.write(content)
         workers = workers or self.workers
-        jopts = ["-Xss512m", "-XX:+UseParallelGC"] + list(jopts or [])
+        jtmp = os.path.join(d, "jtmp")      # TLC leaves a tlc-* directory per run in java.io.tmpdir: keep them out of /tmp
+        os.makedirs(jtmp, exist_ok=True)
+        jopts = ["-Xss512m", "-XX:+UseParallelGC", "-Djava.io.tmpdir=" + jtmp] + list(jopts or [])
         if dfs:
             jopts.append("-Dtlc2.tool.queue.IStateQueue=StateDeque")
         cmd = ["timeout", str(timeout), "java"] + jopts + ["-cp", TLA_CP, "tlc2.TLC",
@@ -218,6 +220,7 @@ class Ctx:
             casef.close()
         shutil.rmtree(os.path.join(d, "md"), ignore_errors=True)
         shutil.rmtree(os.path.join(d, "states"), ignore_errors=True)
+        shutil.rmtree(jtmp, ignore_errors=True)
         info = dict(name=name, generated=gen or 0, distinct=dist or 0, depth=dep, cases=ncases,
                     rc=rc, violated=violated, wall_s=round(time.time() - t0, 2), log=logp,
                     simulate=simulate)
